@@ -30,6 +30,14 @@ Theorem C08_hard_fault : forall rs r n, In r rs -> r = RErr IoFail n -> forall m
 Proof. exact build_reads_io_fault. Qed.
 Print Assumptions C08_hard_fault.
 
+(** ... and a hard failure at any fill_buf of the underlying reader does reach that stream: whatever the
+    chunking, a schedule containing a hard failure never yields a machine. *)
+Theorem C08_hard_fault_schedule : forall s, In Fail (future s) -> forall m, build s <> Val (Ok m).
+Proof.
+  intros s H m. destruct (raw_reads_fail s H) as [n Hn]. unfold build. eapply build_reads_io_fault; [exact Hn|reflexivity].
+Qed.
+Print Assumptions C08_hard_fault_schedule.
+
 (** Interrupted reads that are retried do not change anything: inserting a transient Interrupted error
     at any fill_buf of any fault-free schedule leaves the stream of line reads (hence every result) unchanged. *)
 Theorem C08_interrupted : forall l1 l2, no_fail (l1 ++ l2) ->
